@@ -8,9 +8,11 @@
 //   probe i j k                         value and byte offset (from the root's data) of &v[i][j][k]
 //   write                               assigns 7000000+n through the view at the n-th probe of the current step,
 //                                       then lists every 32-bit word of the root that changed, then re-reads
-//   convert                             multi::array<U,D> constructed from the view: sizes and elements
+//   convert [kind]                      array constructed / assigned from the view, from an array / array_ref / iterator pair /
+//                                       flat range made from it (kind = <source><category>.<how>.<target>): extensions and elements
+//   walk lead|row <i>|flat <start> ...  iterator walk on the view (c12_projview.hpp PH::walk): position and designated element
 //   end
-// Output: S lines (shape after root / op / proj), P (probe), M (modified root words), W (re-read), C/c (converted array).
+// Output: S lines (shape after root / op / proj), P (probe), M (modified root words), W (re-read), C/c (converted array), I (iterator walk).
 #include "common/c12_projview.hpp"
 
 #include <cstdio>
@@ -119,6 +121,7 @@ int main() {
 	std::string id;
 	Root root;
 	int step = 0;
+	int nwalk = 0;
 	bool dead = false;
 	std::vector<std::vector<idx_t>> probes;   // probes of the current step (for `write`)
 	while(std::getline(std::cin, line)) {
@@ -130,6 +133,7 @@ int main() {
 			if(kw == "case") {
 				is >> id;
 				step = 0;
+				nwalk = 0;
 				dead = false;
 				probes.clear();
 			} else if(kw == "root") {
@@ -190,7 +194,15 @@ int main() {
 				for(auto const& x : probes) { probe_line("W", id, step, *root.view, x); }
 			} else if(kw == "convert") {
 				if(dead) { continue; }
-				root.view->convert(std::cout, id, step);
+				std::string kind;
+				is >> kind;
+				root.view->convert(std::cout, id, step, kind);
+			} else if(kw == "walk") {
+				if(dead) { continue; }
+				std::vector<std::string> tk;
+				std::string t;
+				while(is >> t) { tk.push_back(t); }
+				root.view->walk(std::cout, id, step, ++nwalk, tk);
 			} else if(kw == "end") {
 				std::cout << "E " << id << '\n';
 			}
